@@ -128,3 +128,7 @@ package maptile
 //@   ensures forall t Tile :: has(s, t) && s[t] ==> old(has(s, t) && s[t]) || (has(set, t) && set[t])
 //@   loop 1: invariant forall t Tile :: old(has(s, t) && s[t]) ==> has(s, t) && s[t]
 //@   loop 1: invariant forall t Tile :: has(s, t) && s[t] ==> old(has(s, t) && s[t]) || (has(set, t) && set[t])
+
+// the tile fraction of a point is a deterministic function of the point and the zoom
+//@ func Fraction(ll, z)
+//@   function
